@@ -100,8 +100,9 @@ class ScriptedAcceptor(Peer):
 
     def __init__(self, sim, sock, accept=default_accept, max_length=16384, on_message=None,
                  reply='ac', rj=(1, 1, 1), on_established=None, close_after_release=True,
-                 called=None, calling=None):
+                 called=None, calling=None, on_pdu=None):
         Peer.__init__(self, sim, sock, 'acceptor-peer')
+        self.on_pdu = on_pdu
         self.accept = accept
         self.max_length = max_length
         self.on_message = on_message
@@ -162,6 +163,8 @@ class ScriptedAcceptor(Peer):
             k = p['kind']
             if k == 'P-DATA-TF':
                 self.pdata.append(p)
+                if self.on_pdu is not None:
+                    self.on_pdu(self, p)
                 for m in self.feed_pdata(p):
                     if self.on_message is not None:
                         self.on_message(self, m)
